@@ -61,4 +61,15 @@ def readList : Nat → Bytes → List Nat
 def decodeVis (offsets : List Nat) (data : Bytes) : List (List Nat) :=
   offsets.map fun o => readList data.length (data.drop o)
 
+/-! ### group flags across versions (converter.rs:convert_group_flags) -/
+
+/-- bits a group of version `to` can carry (expansion ordinals: Classic 0, TBC 1, WotLK 2, Cataclysm 3, MoP 4, WoD 5,
+    Legion 6, …): scene graph 0x4000, more motion types 0x8000 and exterior BSP 0x20000 exist from Cataclysm on,
+    mount allowed 0x10000 from Legion on -/
+def groupFlagMask (to : Nat) : Nat :=
+  0xFFFFFFFF - (if to < 3 then 0x2C000 else 0) - (if to < 6 then 0x10000 else 0)
+
+/-- the flag word kept when a group goes to version `to` -/
+def groupFlagsTo (to : Nat) (flags : Nat) : Nat := flags &&& groupFlagMask to
+
 end Wv.Wmo
